@@ -3,6 +3,7 @@ package value
 import (
 	"fmt"
 	"sync"
+	"sync/atomic"
 )
 
 var MutexClass *Class              // ::Std::Sync::Mutex
@@ -11,6 +12,9 @@ var MutexUnlockedErrorClass *Class // ::Std::Sync::Mutex::UnlockedError
 // Wraps a Go mutex.
 type Mutex struct {
 	Native sync.Mutex
+	// true while Native is held: set after Lock, cleared (by exactly one caller) before Unlock.
+	// Go's `fatal error: sync: unlock of unlocked mutex` cannot be recovered, so it must never be reached.
+	held atomic.Bool
 }
 
 func NewMutex() *Mutex {
@@ -56,6 +60,7 @@ func (*Mutex) InstanceVariables() *InstanceVariables {
 func (m *Mutex) Lock() {
 	vhook("mutex.lock.try", m)
 	m.Native.Lock()
+	m.held.Store(true)
 	vhook("mutex.lock.ok", m)
 }
 
@@ -68,6 +73,10 @@ func (m *Mutex) Unlock() (err Value) {
 	}()
 
 	vhook("mutex.unlock.try", m)
+	if !m.held.CompareAndSwap(true, false) {
+		vhook("mutex.unlock.err", m)
+		return Ref(NewError(MutexUnlockedErrorClass, "cannot unlock an unlocked mutex"))
+	}
 	m.Native.Unlock()
 	vhook("mutex.unlock.ok", m)
 	return Undefined
